@@ -70,6 +70,39 @@ def elf(ctx):
     ctx.sample("ELF: PT_GNU_STACK of libascon.so, the tools and test programs from the repository's own CMake build; .note.GNU-stack of %d assembled objects" % len(objs))
 
 
+def native_i386(ctx, py):
+    """(e) the i386 file assembled with gcc -m32 into a freestanding program and run on the host CPU in 32-bit mode (if the host can)"""
+    out = os.path.join(build.BUILD, "tmp", "c18-i386-%d" % os.getpid())
+    os.makedirs(os.path.dirname(out), exist_ok=True)
+    core = os.path.join(build.REPO, "src", "core")
+    cmd = ["gcc", "-m32", "-ffreestanding", "-nostdlib", "-static", "-O1", "-fno-stack-protector", "-Wa,--noexecstack", "-I" + core, "-o", out,
+           os.path.join(common.VERIF, "harness", "i386", "srv.c"), os.path.join(common.VERIF, "harness", "i386", "tramp.S"), os.path.join(core, "ascon-asm-i386.S")]
+    def unavailable(why):
+        # no 32-bit code generation or execution on this host: the text-level emulator above remains the only executor for i386
+        ctx.sample("native i386 run not available on this host (%s); i386 covered by the emulator only" % why)
+        ctx.stats["native_i386"] = 0
+    try:
+        # the harness alone first: tells "this host cannot do -m32" apart from "the checked-in file does not assemble"
+        probe = subprocess.run(cmd[:-1] + ["-Wl,--unresolved-symbols=ignore-all"], stdout=subprocess.PIPE, stderr=subprocess.STDOUT, timeout=300)
+        if probe.returncode != 0:
+            return unavailable("gcc -m32 cannot build a freestanding program")
+        p = subprocess.run(cmd, stdout=subprocess.PIPE, stderr=subprocess.STDOUT, timeout=300)
+        if p.returncode != 0:
+            ctx.fail("i386-native:assemble", "the checked-in i386 file does not assemble/link with gcc -m32: " + p.stdout.decode("utf-8", "replace")[-300:])
+            return
+        if subprocess.run([out], input=b"", stdout=subprocess.PIPE, stderr=subprocess.PIPE, timeout=60).returncode != 0:
+            return unavailable("32-bit programs do not execute")
+    except (OSError, subprocess.TimeoutExpired) as ex:
+        return unavailable(str(ex)[:80])
+    rc, o, e = common.run_harness(ctx, py, [os.path.join(common.VERIF, "emu", "native_i386.py"), out, 1], label="", timeout=max(60, ctx.remaining()),
+                                  env={"EMU_REFPERM": build.build_prog("refperm_cli", ["ref/refperm_cli.c", "ref/ref.c"], cc="gcc", opt="-O2")})
+    ctx.stats["native_i386"] = 1 if rc == 0 else 0
+    try:
+        os.unlink(out)
+    except OSError:
+        pass
+
+
 def run(ctx):
     t = ctx.thorough
     generators(ctx)
@@ -99,14 +132,17 @@ def run(ctx):
             else:
                 ctx.not_emulated.append(isa)
         common.parallel(emu_one, isas, jobs=13)
+        native_i386(ctx, py)
     ctx.assumptions += [
         "generator check: the generators are built and run from a scratch copy of tools/ and their output compared byte for byte with the 18 checked-in files",
         "host ABI: System V x86-64 callee-saved set {rbx, rbp, r12-r15}, rsp, direction flag, no write above the return address; objects flush against PROT_NONE pages",
+        "the i386 file is also run natively in 32-bit mode when the host allows it (evidence counter native_i386 = 1); if not, only the emulator speaks for it",
         "other ISAs are executed by text-level emulators of the instruction subsets these files use (a model of the ISA, not silicon); an ISA without a finished emulator is listed under not_emulated and nothing is claimed for it",
     ]
     cov = dict(evaluations=ctx.stats.get("evaluations", 0), distinct_nontrivial=ctx.stats.get("nontrivial", 0),
                emulated=ctx.stats.get("emulated_isas", 0), not_emulated=getattr(ctx, "not_emulated", []),
                rule="18 generated files vs generator output; ELF stack flags of every linked artefact and .note.GNU-stack of every assembled object; x86-64 entry points (permutation, masked x2-x4 permutations, "
-                    "masked word functions) x states x 12 rounds through an ABI-checking trampoline; per emulated ISA: weight<=2 states x 12 starting rounds vs the specification with callee-saved / stack / memory-bounds checks",
+                    "masked word functions) x states x 12 rounds through an ABI-checking trampoline; per emulated ISA: weight<=2 states x 12 starting rounds vs the specification with callee-saved / stack / memory-bounds checks; "
+                    "i386 additionally assembled with gcc -m32 and run on the host CPU: all weight<=2 states and complements x 12 rounds, cdecl registers, esp, guard words",
                exhaustive=True)
     return LEVEL, cov
